@@ -404,6 +404,43 @@ async def _r_remote_name(env, _):
     return await env.conn_l.request_remote_name()
 
 
+async def _r_hci_concurrent(env, _):
+    # three commands issued at once: one is in flight, the others wait for the command channel
+    host, handle = env.local.host, env.conn_l.handle
+    commands = [hci.HCI_LE_Read_PHY_Command(connection_handle=handle), hci.HCI_Read_BD_ADDR_Command(),
+                hci.HCI_LE_Read_PHY_Command(connection_handle=handle)]
+    tasks = [asyncio.ensure_future(host.send_command(c)) for c in commands]
+    done = await asyncio.gather(*tasks, return_exceptions=True)
+    errors = [r for r in done if isinstance(r, BaseException)]
+    if errors:
+        raise errors[0]
+    return [int(r.return_parameters.status) for r in done]
+
+
+async def _s_failed_pairing(env):
+    # a pairing that the peer's delegate refuses: it ends with Pairing Failed while the link stays up
+    from bumble.pairing import PairingConfig, PairingDelegate
+
+    class Refuse(PairingDelegate):
+        async def accept(self) -> bool:
+            return False
+
+        async def confirm(self, auto: bool = False) -> bool:
+            return False
+
+    env.peer.device.pairing_config_factory = lambda connection: PairingConfig(delegate=Refuse())
+    try:
+        await env.conn_l.pair()
+    except Exception as e:  # noqa: BLE001 - the expected ending
+        return type(e).__name__
+    raise ValueError('the pairing was expected to fail')
+
+
+async def _s_paired(env):
+    await env.conn_l.pair()
+    return env.conn_l.is_encrypted
+
+
 def _eq(expected):
     return lambda result: result == expected
 
@@ -427,6 +464,12 @@ PROCS = [
     Proc('le_acl_disconnect', False, 'Connection.disconnect() (LE)', _no_setup, _r_acl_disconnect),
     Proc('le_read_remote_features', False, 'Connection.get_remote_le_features()', _no_setup, _r_remote_features),
     Proc('hci_le_read_phy', False, 'Host.send_command(HCI_LE_Read_PHY_Command)', _no_setup, _r_read_phy, _eq(0)),
+    Proc('hci_commands_concurrent', False, 'three concurrent Host.send_command() calls (one in flight, two queued)', _no_setup,
+         _r_hci_concurrent, _eq([0, 0, 0])),
+    Proc('le_acl_disconnect_after_failed_pairing', False, 'Connection.disconnect() after a pairing that ended with Pairing Failed',
+         _s_failed_pairing, _r_acl_disconnect),
+    Proc('le_acl_disconnect_after_pairing', False, 'Connection.disconnect() after a completed pairing', _s_paired,
+         _r_acl_disconnect),
     Proc('classic_l2cap_connect', True, 'Connection.create_l2cap_channel(ClassicChannelSpec)', _no_setup,
          _r_classic_connect, _eq('OPEN')),
     Proc('classic_l2cap_disconnect', True, 'ClassicChannel.disconnect()', _s_classic, _r_channel_disconnect),
